@@ -249,14 +249,15 @@ def run_case(case):
                     onames = [f['name'] for f in got.dp['resources'][0]['schema']['fields']]
                     if onames != [h.strip() for h in ah]:
                         # with rows of differing width, tabulator's "auto" preset may take a later row as the header row
+                        # (a column whose header cell is empty is left out)
                         for k_ in range(min(10, len(ar))):
-                            if onames == [h.strip() for h in ar[k_]]:
+                            if onames == [h.strip() for h in ar[k_]] or onames == [h.strip() for h in ar[k_] if h.strip()]:
                                 ah, ar = ar[k_], ar[k_ + 1:]
                                 break
                     if kw.get('deduplicate_headers'):
                         same_header = len(onames) == len(ah)
                     else:
-                        same_header = onames == [h.strip() for h in ah]
+                        same_header = onames == [h.strip() for h in ah] or onames == [h.strip() for h in ah if h.strip()]
                     n_alt = len(ar) if limit is None else min(limit, len(ar))
                     ok_alt = same_header and (fam == 'cast_schema' or len(got.results[0]) == n_alt)
                     if ok_alt and kind == 'cell' and at is not None:
